@@ -10,10 +10,16 @@
 //   mode 3  exhaustive export sweep: one design per reserved word x 3 letter cases, the word used in every name position
 //           (ncases = additional random designs appended)
 //   mode 4  directed designs: nested/sibling sub-entities, instance labels and entity names from 1..3 base names (ncases cases)
+//   mode 5  the four comment formatters of the real vhdl::DefaultCodeFormatting on generated comment texts (ncases cases x 16 calls)
+//   mode 6  directed designs with logic-driven resets / clocks (Clock::overrideRstWith / overrideClkWith) whose expressions go
+//           through multiplexers over signals that are declared first and assigned later, plus multi-line comments (ncases cases)
+// Modes 2, 3, 6 attach generated multi-line comments (entities, areas, nodes) to about half of the designs; every comment line
+// carries the marker CMARK so that the driver can verify that the text only ever appears behind `--`.
 // Protocol (see lean/Driver/C13.lean):
 //   words <w1> <w2> ...                       the harness' copy of the reserved-word list (driver checks it against its own)
 //   case <id> alloc / tree <n> <p|-> ... / q <scope> <kind> <desired|-> => <name|!e> / end
-//   case <id> export / u <position> <name> ... / x <exception text>  |  f <file> + v <line> ... / end
+//   case <id> export / u <position> <name> ... / c <where> <hex of comment> ... / x <exception text>  |  f <file> + v <line> ... / end
+//   case <id> comment / k <entity|block|process|code> <indentation> <hex name|-> <hex comment|-> <hex output|-> ... / end
 #include <gatery/pch.h>
 #include <gatery/frontend.h>
 #include <gatery/export/vhdl/VHDLExport.h>
@@ -213,6 +219,67 @@ static void allocSweep(Rng &r) {
 }
 
 // ----------------------------------------------------------------------------------------------------------------------------------
+// comments
+// ----------------------------------------------------------------------------------------------------------------------------------
+static const char *const CMARK = "Zq7Zq7";
+
+static std::string hexS(const std::string &s) {
+	if (s.empty()) return "-";
+	static const char d[] = "0123456789abcdef";
+	std::string o;
+	for (unsigned char c : s) { o += d[c >> 4]; o += d[c & 15]; }
+	return o;
+}
+
+// 1..5 lines; lines that are empty, start with blanks / tabs, contain `--`, quotes, semicolons, VHDL keywords and statements,
+// very long lines; `\n` or `\r\n` line ends; optional trailing line end. `marked`: every non-empty line carries CMARK.
+static std::string randomComment(Rng &r, bool marked) {
+	static const char *const pieces[] = {"Adds the two operands", "carry <= '1' would be wrong here;", "see the architecture notes", "END ENTITY;",
+		"ENTITY oops IS", "signal x : std_logic;", "LIBRARY ieee;", "-- nested dashes --", "\"quoted\" text", "it's", "a; b; c;", "process(all) begin end process;",
+		"x := y", "TODO", "100% (approx.) <= 3 /= 4", "others => 'X'", "port map ( a => b );", "\\backslash\\", "tab\there", "@#$%^&*~`[]{}|?!"};
+	size_t nlines = r.range(1, 5);
+	std::string out;
+	for (size_t i = 0; i < nlines; i++) {
+		std::string line;
+		unsigned k = (unsigned) r.below(10);
+		if (k == 0) line = "";                                                  // empty line
+		else {
+			if (k <= 3 && i > 0) line += r.chance(1, 2) ? std::string(r.range(1, 8), ' ') : std::string(r.range(1, 3), '\t');   // indented continuation
+			else if (k == 4) line += r.chance(1, 2) ? " \t " : "\t  ";
+			size_t np = r.range(1, 3);
+			for (size_t j = 0; j < np; j++) { if (j) line += ' '; line += pieces[r.below(sizeof(pieces) / sizeof(pieces[0]))]; }
+			if (k == 9) { while (line.size() < 300 + r.below(400)) { line += ' '; line += pieces[r.below(sizeof(pieces) / sizeof(pieces[0]))]; } }   // very long
+			if (marked) { line += ' '; line += CMARK; }
+			else if (r.chance(1, 8)) line = std::string(r.range(1, 4), r.chance(1, 2) ? ' ' : '\t');                          // blanks only
+		}
+		out += line;
+		if (i + 1 < nlines || r.chance(1, 4)) out += r.chance(1, 6) ? "\r\n" : "\n";
+	}
+	return out;
+}
+
+static void commentCase(Rng &r, uint64_t id) {
+	vhdl::DefaultCodeFormatting cf;
+	std::cout << "case " << id << " comment\n";
+	for (unsigned i = 0; i < 16; i++) {
+		unsigned kind = (unsigned) r.below(4);
+		unsigned indentation = (unsigned) r.below(5);
+		std::string name = randomIdent(r);
+		std::string comment = r.chance(1, 12) ? std::string() : randomComment(r, false);
+		std::ostringstream o;
+		switch (kind) {
+			case 0: cf.formatEntityComment(o, name, comment); break;
+			case 1: cf.formatBlockComment(o, name, comment); break;
+			case 2: cf.formatProcessComment(o, indentation, name, comment); break;
+			default: cf.formatCodeComment(o, indentation, comment); break;
+		}
+		static const char *const kinds[] = {"entity", "block", "process", "code"};
+		std::cout << "k " << kinds[kind] << ' ' << indentation << ' ' << hexS(name) << ' ' << hexS(comment) << ' ' << hexS(o.str()) << '\n';
+	}
+	std::cout << "end\n";
+}
+
+// ----------------------------------------------------------------------------------------------------------------------------------
 // modes 2 / 3 : real exports
 // ----------------------------------------------------------------------------------------------------------------------------------
 struct NameSource {
@@ -231,6 +298,14 @@ struct NameSource {
 		}
 		*log << "u " << position << ' ' << n << '\n';
 		return n;
+	}
+	bool comments = false;       // attach comments in this design
+	// with probability num/den a comment for `where` (logged), else nothing
+	std::optional<std::string> comment(const char *where, unsigned num, unsigned den) {
+		if (!comments || !r->chance(num, den)) return std::nullopt;
+		std::string c = randomComment(*r, true);
+		*log << "c " << where << ' ' << hexS(c) << '\n';
+		return c;
 	}
 };
 
@@ -258,6 +333,7 @@ struct DesignGen {
 		ClockScope domainScope(*d.clk);
 		unsigned k = (unsigned) r.below(15);
 		if (getenv("C13_DEBUG")) std::cerr << "op " << k << std::endl;
+		if (auto c = names.comment("node", 1, 6)) HCL_COMMENT << *c;
 		switch (k) {
 			case 0: case 1: { UInt a = pickVec(d), b = pickVec(d); size_t w = std::max(a.width().bits(), b.width().bits()); a = fit(a, w); b = fit(b, w);
 				UInt x = r.chance(1, 2) ? UInt(a + b) : UInt(a - b); maybeName(x); d.vec.push_back(x); } break;
@@ -317,9 +393,11 @@ struct DesignGen {
 				Area area(names.get("ent"), true);
 				if (r.chance(1, 2)) area.instanceName(names.get("inst"));
 				if (r.chance(1, 4)) area.useComponentInstantiation(true);
+				if (auto c = names.comment("entity", 2, 3)) GroupScope::get()->setComment(*c);
 				body(depth - 1);
 			} else if (depth > 0 && k == 1) {
 				GroupScope g(GroupScope::GroupType::AREA, names.get("area"));
+				if (auto c = names.comment("area", 2, 3)) g.setComment(*c);
 				body(depth - 1);
 			} else
 				op(dom[r.below(dom.size())]);
@@ -342,6 +420,7 @@ struct DesignGen {
 			dom.back().clk.emplace(cfg);
 		}
 		ClockScope cs(*dom[0].clk);
+		if (auto c = names.comment("top", 1, 2)) GroupScope::get()->setComment(*c);
 		for (auto &d : dom) {
 			ClockScope domainScope(*d.clk);
 			size_t nin = r.range(1, 3);
@@ -398,17 +477,112 @@ struct DirectedGen {
 	}
 };
 
-static void exportCase(const std::string &id, Rng r, NamePool *pool, const std::string &fixed, bool directed = false) {
+// directed pattern family (mode 6): resets and clocks of derived clocks driven by logic (Node_Signal2Rst / Node_Signal2Clk) whose
+// expression goes through multiplexers / conditionals over signals that are declared first and assigned later, so that the
+// `<reset> <= expr;` statement of the process depends on process variables created after it.
+struct OverrideGen {
+	Rng &r;
+	NameSource &names;
+	std::vector<Bit> bits;
+	std::vector<UInt> vecs;
+	OverrideGen(Rng &rng, NameSource &n) : r(rng), names(n) {}
+
+	Bit cond() { return r.pick(bits); }
+	// a Bit computed through 1..3 conditional assignments (multiplexers) over `pool` and the late signals
+	Bit muxed(const std::vector<Bit> &late, const std::vector<UInt> &lateV) {
+		Bit x = r.pick(bits);
+		unsigned depth = (unsigned) r.range(1, 3);
+		for (unsigned i = 0; i < depth; i++) {
+			if (auto c = names.comment("node", 1, 5)) HCL_COMMENT << *c;
+			Bit alt;
+			unsigned k = (unsigned) r.below(6);
+			if (k < 3 && !late.empty()) alt = r.pick(late);
+			else if (k == 3 && !lateV.empty()) { const UInt &v = r.pick(lateV); alt = v[r.below(v.width().bits())]; }
+			else if (k == 4 && !lateV.empty()) { const UInt &v = r.pick(lateV); alt = v == ConstUInt(r.below(1ull << v.width().bits()), v.width()); }
+			else alt = r.pick(bits);
+			IF (cond()) x = alt;
+			if (r.chance(1, 3)) x = r.chance(1, 2) ? Bit(x & cond()) : Bit(!x);
+			if (r.chance(1, 3)) setName(x, names.get("sig"));
+		}
+		return x;
+	}
+
+	void build() {
+		ClockConfig cfg;
+		cfg.absoluteFrequency = hlim::ClockRational(100'000'000);
+		cfg.name = names.get("clk");
+		if (r.chance(1, 2)) cfg.resetName = names.get("rst");
+		Clock clock(cfg);
+		ClockScope cs(clock);
+		if (auto c = names.comment("top", 1, 2)) GroupScope::get()->setComment(*c);
+
+		size_t nbits = r.range(3, 6);
+		for (size_t i = 0; i < nbits; i++) { Bit b = pinIn().setName(names.get("pin")); bits.push_back(b); }
+		size_t nvec = r.range(1, 2);
+		for (size_t i = 0; i < nvec; i++) { UInt v = pinIn(BitWidth(r.range(2, 4))).setName(names.get("pin")); vecs.push_back(v); }
+
+		// declared first ...
+		size_t nlate = r.range(1, 3);
+		std::vector<Bit> late(nlate);
+		std::vector<UInt> lateV;
+		if (r.chance(1, 2)) { lateV.emplace_back(BitWidth(r.range(2, 4))); }
+
+		size_t nder = r.range(1, 2);
+		std::vector<Clock> derived;
+		for (size_t i = 0; i < nder; i++) {
+			ClockConfig dc;
+			dc.name = names.get("clk");
+			dc.resetName = names.get("rst");
+			if (r.chance(1, 4)) dc.resetType = ClockConfig::ResetType::ASYNCHRONOUS;
+			derived.push_back(clock.deriveClock(dc));
+			unsigned what = (unsigned) r.below(4);        // 0,1: reset  2: clock  3: both
+			if (what != 2) derived.back().overrideRstWith(muxed(late, lateV));
+			if (what >= 2) derived.back().overrideClkWith(muxed(late, lateV));
+		}
+
+		// ... assigned later, each through further multiplexers; later ones may feed earlier ones
+		for (size_t i = nlate; i-- > 0;) {
+			std::vector<Bit> none;
+			std::vector<Bit> assignedAlready(late.begin() + (long) i + 1, late.end());
+			Bit v = muxed(assignedAlready, {});
+			late[i] = v;
+		}
+		for (auto &lv : lateV) {
+			UInt v = r.pick(vecs);
+			UInt w = v.width().bits() >= lv.width().bits() ? UInt(v(0, lv.width())) : zext(v, lv.width());
+			IF (cond()) w = ~w;
+			lv = w;
+		}
+
+		for (size_t i = 0; i < nder; i++) {
+			ClockScope scope(derived[i]);
+			UInt data = pinIn(4_b).setName(names.get("pin"));
+			UInt counter = 4_b;
+			counter = reg(counter + data, 0);
+			if (r.chance(1, 2)) setName(counter, names.get("sig"));
+			pinOut(counter).setName(names.get("pin"));
+		}
+		for (auto &l : late) if (r.chance(2, 3)) pinOut(l).setName(names.get("pin"));
+		for (auto &lv : lateV) pinOut(lv).setName(names.get("pin"));
+	}
+};
+
+static void exportCase(const std::string &id, Rng r, NamePool *pool, const std::string &fixed, int directed = 0) {
 	std::ostringstream log;
 	NameSource names;
 	names.pool = pool; names.fixed = fixed; names.r = &r; names.log = &log;
+	names.comments = r.chance(1, 2);
+	Comments::retrieve();
 	std::filesystem::path dir = std::filesystem::path("/var/tmp") / ("gv_c13_" + std::to_string(getpid()));
 	std::filesystem::remove_all(dir);
 	std::filesystem::create_directories(dir);
 	std::string failure;
 	try {
 		DesignScope design;
-		if (directed) {
+		if (directed == 2) {
+			OverrideGen g(r, names);
+			g.build();
+		} else if (directed == 1) {
 			DirectedGen g(r, names);
 			g.build();
 		} else {
@@ -465,7 +639,16 @@ int main(int argc, char **argv) {
 			Rng r = top.fork();
 			NamePool pool(r, (unsigned) r.range(1, 3));
 			if (r.chance(1, 2)) for (auto &b : pool.bases) b = randomIdent(r);     // half of the cases: no reserved words at all
-			exportCase("d" + std::to_string(i), r.fork(), &pool, "", true);
+			exportCase("d" + std::to_string(i), r.fork(), &pool, "", 1);
+		}
+	} else if (mode == 5) {
+		for (uint64_t i = 0; i < ncases; i++) { Rng r = top.fork(); commentCase(r, i); }
+	} else if (mode == 6) {
+		for (uint64_t i = 0; i < ncases; i++) {
+			Rng r = top.fork();
+			NamePool pool(r, (unsigned) r.range(2, 5));
+			if (r.chance(2, 3)) for (auto &b : pool.bases) b = randomIdent(r);
+			exportCase("o" + std::to_string(i), r.fork(), &pool, "", 2);
 		}
 	} else {
 		for (size_t w = 0; w < NRES; w++)
